@@ -9,7 +9,10 @@
 // aggregate by addition, an aggregate of signatures on one message verifies under the
 // aggregate of the keys, the identity is the all-zero value (as blst's affine infinity is),
 // a signature is valid for at most one (key, message) pair up to collisions of the 64-bit
-// constants involved. Compressed encodings keep blst's lengths (48 / 96 bytes) and flag byte
+// constants involved. G1 elements additionally carry a torsion component t (Z/256): t != 0
+// models a point on the curve outside the prime-order subgroup. The pairing check ignores it
+// (a signature plus a small-order point still satisfies the pairing equation), SigValidate -
+// blst's subgroup check - is what rejects it, Equals and the encodings see it. Compressed encodings keep blst's lengths (48 / 96 bytes) and flag byte
 // (0x80 compressed, 0xc0 infinity); every other byte string fails to decompress (nil result),
 // as with blst.
 package blst
@@ -27,9 +30,15 @@ type Scalar struct{ s uint64 }
 type SecretKey = Scalar
 type Message = []byte
 
-type P1 struct{ v uint64 }
+type P1 struct {
+	v uint64
+	t uint8
+}
 type P2 struct{ v uint64 }
-type P1Affine struct{ v uint64 }
+type P1Affine struct {
+	v uint64
+	t uint8
+}
 type P2Affine struct{ v uint64 }
 
 func fnv(parts ...[]byte) uint64 {
@@ -63,14 +72,15 @@ func (pk *P2Affine) From(s *Scalar) *P2Affine {
 func (pk *P2Affine) KeyValidate() bool { return pk.v != 0 }
 
 func (sig *P1Affine) SigValidate(sigInfcheck bool) bool {
-	if sigInfcheck && sig.v == 0 {
+	if sigInfcheck && sig.v == 0 && sig.t == 0 {
 		return false
 	}
-	return true
+	return sig.t == 0 // in the prime-order subgroup
 }
 
 func (sig *P1Affine) Sign(sk *SecretKey, msg []byte, dst []byte, optional ...interface{}) *P1Affine {
 	sig.v = sk.s * hashToG1(msg, dst)
+	sig.t = 0
 	return sig
 }
 
@@ -81,9 +91,10 @@ func (sig *P1Affine) Verify(sigGroupcheck bool, pk *P2Affine, pkValidate bool, m
 	return sig.v == pk.v*hashToG1(msg, dst)
 }
 
-func compress(v uint64, n int) []byte {
+func compress(v uint64, t uint8, n int) []byte {
 	out := make([]byte, n)
-	if v == 0 {
+	out[9] = t
+	if v == 0 && t == 0 {
 		out[0] = 0xc0
 		return out
 	}
@@ -94,27 +105,40 @@ func compress(v uint64, n int) []byte {
 	return out
 }
 
-func uncompress(in []byte, n int) (uint64, bool) {
+// uncompress: torsion reports whether byte 9 may carry a torsion tag (G1) or must be zero (G2).
+func uncompress(in []byte, n int, torsion bool) (uint64, uint8, bool) {
+	v, ok := uncompress0(in, n, torsion)
+	if !ok {
+		return 0, 0, false
+	}
+	return v, in[9], true
+}
+
+func uncompress0(in []byte, n int, torsion bool) (uint64, bool) {
 	if len(in) != n {
+		return 0, false
+	}
+	t := in[9]
+	if !torsion && t != 0 {
 		return 0, false
 	}
 	var v uint64
 	for i := 0; i < 8; i++ {
 		v = v<<8 | uint64(in[1+i])
 	}
-	for _, b := range in[9:] {
+	for _, b := range in[10:] {
 		if b != 0 {
 			return 0, false
 		}
 	}
 	switch in[0] {
 	case 0xc0:
-		if v != 0 {
+		if v != 0 || t != 0 {
 			return 0, false
 		}
 		return 0, true
 	case 0x80:
-		if v == 0 {
+		if v == 0 && t == 0 {
 			return 0, false
 		}
 		return v, true
@@ -122,21 +146,21 @@ func uncompress(in []byte, n int) (uint64, bool) {
 	return 0, false
 }
 
-func (p1 *P1Affine) Compress() []byte { return compress(p1.v, BLST_P1_COMPRESS_BYTES) }
+func (p1 *P1Affine) Compress() []byte { return compress(p1.v, p1.t, BLST_P1_COMPRESS_BYTES) }
 
 func (p1 *P1Affine) Uncompress(in []byte) *P1Affine {
-	v, ok := uncompress(in, BLST_P1_COMPRESS_BYTES)
+	v, t, ok := uncompress(in, BLST_P1_COMPRESS_BYTES, true)
 	if !ok {
 		return nil
 	}
-	p1.v = v
+	p1.v, p1.t = v, t
 	return p1
 }
 
-func (p2 *P2Affine) Compress() []byte { return compress(p2.v, BLST_P2_COMPRESS_BYTES) }
+func (p2 *P2Affine) Compress() []byte { return compress(p2.v, 0, BLST_P2_COMPRESS_BYTES) }
 
 func (p2 *P2Affine) Uncompress(in []byte) *P2Affine {
-	v, ok := uncompress(in, BLST_P2_COMPRESS_BYTES)
+	v, _, ok := uncompress(in, BLST_P2_COMPRESS_BYTES, false)
 	if !ok {
 		return nil
 	}
@@ -144,17 +168,19 @@ func (p2 *P2Affine) Uncompress(in []byte) *P2Affine {
 	return p2
 }
 
-func (e1 *P1Affine) Equals(e2 *P1Affine) bool { return e1.v == e2.v }
+func (e1 *P1Affine) Equals(e2 *P1Affine) bool { return e1.v == e2.v && e1.t == e2.t }
 func (e1 *P2Affine) Equals(e2 *P2Affine) bool { return e1.v == e2.v }
-func (e1 *P1) Equals(e2 *P1) bool             { return e1.v == e2.v }
+func (e1 *P1) Equals(e2 *P1) bool             { return e1.v == e2.v && e1.t == e2.t }
 func (e1 *P2) Equals(e2 *P2) bool             { return e1.v == e2.v }
 
 func (p1 *P1) AddAssign(pointIf interface{}) *P1 {
 	switch val := pointIf.(type) {
 	case *P1:
 		p1.v += val.v
+		p1.t += val.t
 	case *P1Affine:
 		p1.v += val.v
+		p1.t += val.t
 	default:
 		panic(fmt.Sprintf("unsupported type %T", val))
 	}
@@ -166,9 +192,9 @@ func (p1 *P1) Add(pointIf interface{}) *P1 {
 	return ret.AddAssign(pointIf)
 }
 
-func (p *P1) ToAffine() *P1Affine    { return &P1Affine{v: p.v} }
-func (p *P1) FromAffine(a *P1Affine) { p.v = a.v }
-func (p *P1Affine) IsInf() bool      { return p.v == 0 }
+func (p *P1) ToAffine() *P1Affine    { return &P1Affine{v: p.v, t: p.t} }
+func (p *P1) FromAffine(a *P1Affine) { p.v, p.t = a.v, a.t }
+func (p *P1Affine) IsInf() bool      { return p.v == 0 && p.t == 0 }
 func (p *P2Affine) IsInf() bool      { return p.v == 0 }
 
 func (p2 *P2) AddAssign(pointIf interface{}) *P2 {
